@@ -63,7 +63,7 @@ func newFQ(workers, depth, inCap, mode int) *fq {
 		workers:   workers,
 	}
 	f.subCond = sync.NewCond(&f.mu)
-	opts := []taskqueue.Option{taskqueue.Workers(workers), taskqueue.Depth(depth), taskqueue.VerifInCap(inCap)}
+	opts := withInCap([]taskqueue.Option{taskqueue.Workers(workers), taskqueue.Depth(depth)}, inCap)
 	record := func(err error) {
 		// recovered[-1]: a call that cannot be attributed to a panicking task; -2: nil error; -3: the rendering of the
 		// error does not mention the marker of the task although the panic value had text
@@ -342,6 +342,43 @@ func (f *fq) dispose() {
 	}
 }
 
+// measureInCap finds the capacity of the `in` channel of a queue from outside: one worker, Depth(0), the worker busy
+// with a blocked task; then `tasks` takes one task, the dispatcher holds one while it waits for a completion, `in` takes
+// its capacity and the next Submit blocks: capacity = (Submit calls that return) - 3.
+func measureInCap() int {
+	gate := make(chan struct{})
+	q := taskqueue.New(taskqueue.Workers(1), taskqueue.Depth(0))
+	var returned atomic.Int32
+	var stop atomic.Bool
+	done := make(chan struct{})
+	go func() {
+		defer close(done)
+		started := make(chan struct{})
+		q.Submit(func() { close(started); <-gate })
+		returned.Add(1)
+		<-started // the worker has taken the first task: the next one goes into the (empty) tasks channel …
+		q.Submit(func() {})
+		returned.Add(1)
+		time.Sleep(5 * time.Millisecond) // … before the third one arrives, which the dispatcher then holds
+		for !stop.Load() {
+			q.Submit(func() {})
+			returned.Add(1)
+		}
+	}()
+	last, since := returned.Load(), time.Now()
+	for time.Since(since) < 60*time.Millisecond {
+		time.Sleep(time.Millisecond)
+		if cur := returned.Load(); cur != last {
+			last, since = cur, time.Now()
+		}
+	}
+	stop.Store(true)
+	close(gate)
+	<-done
+	q.Shutdown()
+	return int(last) - 3
+}
+
 type forcedArea struct{ cur *fq }
 
 func splitHint(line string) (string, string) {
@@ -379,6 +416,13 @@ func (a *forcedArea) Run(line string) string {
 			a.cur = nil
 		}
 		return "reset"
+	}
+	if w[0] == "cap" {
+		// the capacity of the `in` channel this build runs with: set per queue (white-box build) or measured (black-box)
+		if overlayBuild {
+			return "cap=overlay"
+		}
+		return "cap=" + strconv.Itoa(measureInCap())
 	}
 	if w[0] == "new" {
 		if len(w) != 4 && len(w) != 5 {
